@@ -83,7 +83,7 @@ func c15Err(err error) string {
 		return "emptyTag"
 	case strings.Contains(err.Error(), "error reading src type"), strings.Contains(err.Error(), "incorrect non-empty TypeUrl"):
 		return "wrongType"
-	case strings.Contains(err.Error(), "message authentication failed"), strings.Contains(err.Error(), "bad input point"):
+	case strings.Contains(err.Error(), "message authentication failed"), strings.Contains(err.Error(), "bad input point"), strings.Contains(err.Error(), "low order point"):
 		return "crypto"
 	}
 	return "other:" + err.Error()
